@@ -63,6 +63,15 @@ def lemmas_for(c, obligation_name):
     return list(c.get('lemmas', []))
 
 
+def unfold_for(c, obligation_name):
+    """Hidden definitions an obligation may unfold: contract['unfold_map'] (substring of the obligation name -> symbols)
+    overrides the contract-wide contract['unfold'] (keeps recursive definitions out of queries that only need their lemmas)."""
+    for sub, syms in (c.get('unfold_map') or {}).items():
+        if sub in obligation_name:
+            return list(syms)
+    return list(c.get('unfold', []))
+
+
 def generate(pid, prop, reg):
     """All obligations of a property from the current tree. Returns (obligations, interp-info, unbound)."""
     obligations, unbound, functions, dropped, trusted = [], [], [], [], set()
@@ -84,7 +93,7 @@ def generate(pid, prop, reg):
             continue
         for ob in obs:
             ob.lemmas = lemmas_for(c, ob.name)
-            ob.unfold = list(c.get('unfold', []))
+            ob.unfold = unfold_for(c, ob.name)
             ob.function = key
             used_lemmas |= set(ob.lemmas)
         used_lemmas |= set(c.get('lemmas', []))
